@@ -127,6 +127,8 @@ def judge_heap_state(st, run, strict=False):
     stale = st["stale"]["__set__"] if isinstance(st["stale"], dict) else list(st["stale"])
     final = run[-1]
     obs = final["obs"]
+    if st["last"][0] == "obs" and st["last"][1][0] == "unspec":
+        return bad                                  # the last step is outside every claim: this program prefix is not judged
     if len(obs) != len(heap):
         bad.append({"verdict": "handles", "expected": ["handles", len(heap)], "observed": ["handles", len(obs)], "handle": 0})
         return bad
